@@ -381,7 +381,11 @@ def representable (op : List String) : Option Bool :=
     if bound ≤ 800 then some true else none
   | _ => none
 
-def oracleC10 (op : List String) (o : Obs) : Verdict :=
+/-- `roundTrip` is the structural oracle of the symbology (C01–C04): where `representable` does not decide (Aztec and
+    PDF417 capacity with parameters), an *accepted* content must at least be carried by the returned symbol — a symbol
+    from which the reference decoder cannot recover the content means that content was accepted that this symbol cannot
+    represent (e.g. more than 64 data words announced in a compact Aztec symbol). -/
+def oracleC10 (op : List String) (o : Obs) (roundTrip : List String → Obs → Verdict := fun _ _ => .pass) : Verdict :=
   let inDomain : Bool :=
     match op with
     | ["qr", _, level, mode] => (level.toNat?.getD 999) % 256 ≤ 3 && (mode.toNat?.getD 999) % 256 ≤ 3
@@ -391,7 +395,12 @@ def oracleC10 (op : List String) (o : Obs) : Verdict :=
   else if o.cls ≠ "ok" ∧ o.cls ≠ "rej" then .fail "accept-crash" s!"entry point did not return (barcode, nil) or (nil, error): {o.cls}"
   else
     match representable op with
-    | none => .pass
+    | none =>
+      if o.cls = "ok" then
+        match roundTrip op o with
+        | .fail _ why => .fail "accept-unrepresentable" ("accepted, but the returned symbol does not carry the content: " ++ why)
+        | _ => .pass
+      else .pass
     | some true => if o.cls = "ok" then .pass else .fail "accept-rejects-representable" "representable content was refused"
     | some false => if o.cls = "rej" then .pass else .fail "accept-unrepresentable" "content that is not representable was accepted"
 
